@@ -444,6 +444,9 @@ class _Misc(ast.NodeTransformer):
             if len(keep) != len(n.keywords):
                 self.log.append(f"default-valued keyword(s) dropped {self.modname}:{n.lineno} {dn}({', '.join(k.arg for k in n.keywords if k not in keep)})")
                 n.keywords = keep
+        # datetime.now(tz=X) -> datetime.now(X)  (the one parameter of a standard-library call, spelled by keyword)
+        if dn in ("datetime.now", "datetime.datetime.now") and not n.args and len(n.keywords) == 1 and n.keywords[0].arg == "tz":
+            n.args, n.keywords = [n.keywords[0].value], []
         name = f.id if isinstance(f, ast.Name) else (f.attr if isinstance(f, ast.Attribute) and isinstance(f.value, ast.Name) and f.value.id == "operator" else None)
         if name in ("attrgetter", "itemgetter") and n.args and not n.keywords and all(isinstance(a, ast.Constant) for a in n.args):
             x = ast.Name(id="e", ctx=ast.Load())
@@ -795,6 +798,34 @@ class _Misc(ast.NodeTransformer):
                 self.log.append(f"return A if c else B split {self.modname}:{st.lineno}")
                 out.append(new)
                 continue
+            # for x in filter(None, xs): B   ->  for x in xs: if x: B
+            if isinstance(st, ast.For) and isinstance(st.target, ast.Name) and isinstance(st.iter, ast.Call) and ast.unparse(st.iter.func) == "filter" and len(st.iter.args) == 2 and not st.iter.keywords and isinstance(st.iter.args[0], ast.Constant) and st.iter.args[0].value is None and not st.orelse and not any(isinstance(x, (ast.Continue,)) for b in st.body for x in ast.walk(b)):
+                guard = ast.If(test=ast.Name(id=st.target.id, ctx=ast.Load()), body=st.body, orelse=[])
+                st.iter = st.iter.args[1]
+                st.body = [guard]
+                ast.copy_location(guard, st)
+                ast.copy_location(guard.test, st)
+                ast.fix_missing_locations(st)
+                self.log.append(f"filter(None, ...) loop written with an explicit test {self.modname}:{st.lineno}")
+            # for x in map(str.strip, xs): B   ->  for x in xs: x = x.strip(); B      (map(f, xs): x = f(x))
+            if isinstance(st, ast.For) and isinstance(st.target, ast.Name) and isinstance(st.iter, ast.Call) and ast.unparse(st.iter.func) == "map" and len(st.iter.args) == 2 and not st.iter.keywords and not st.orelse:
+                F, x = st.iter.args[0], st.target.id
+                conv = None
+                if isinstance(F, ast.Attribute) and isinstance(F.value, ast.Name) and F.value.id in ("str", "bytes"):
+                    conv = ast.Call(func=ast.Attribute(value=ast.Name(id=x, ctx=ast.Load()), attr=F.attr, ctx=ast.Load()), args=[], keywords=[])
+                elif isinstance(F, ast.Name):
+                    conv = ast.Call(func=F, args=[ast.Name(id=x, ctx=ast.Load())], keywords=[])
+                elif isinstance(F, ast.Lambda) and len(F.args.args) == 1:
+                    conv = _NameConst(F.args.args[0].arg, ast.Name(id=x, ctx=ast.Load())).visit(ast.parse(ast.unparse(F.body), mode="eval").body)
+                if conv is not None:
+                    asg = ast.Assign(targets=[ast.Name(id=x, ctx=ast.Store())], value=conv)
+                    st.iter = st.iter.args[1]
+                    st.body = [asg] + st.body
+                    ast.copy_location(asg, st)
+                    for z in ast.walk(asg):
+                        ast.copy_location(z, st)
+                    ast.fix_missing_locations(st)
+                    self.log.append(f"map(f, ...) loop written with an explicit conversion {self.modname}:{st.lineno}")
             # for x in takewhile(lambda e: P(e), xs): B   ->  for x in xs: if not P(x): break; B
             # for x in filter(lambda e: P(e), xs): B      ->  for x in xs: if not P(x): continue; B      (filterfalse: if P(x))
             if isinstance(st, ast.For) and isinstance(st.target, ast.Name) and isinstance(st.iter, ast.Call) and ast.unparse(st.iter.func) in ("takewhile", "itertools.takewhile", "filter", "filterfalse", "itertools.filterfalse") and len(st.iter.args) == 2 and not st.iter.keywords and isinstance(st.iter.args[0], ast.Lambda) and len(st.iter.args[0].args.args) == 1 and not st.orelse:
@@ -2226,6 +2257,412 @@ def enumerate_start_to_counter(fn, log=None, where=""):
     return bool(done)
 
 
+def dict_items_to_pairs(fn, log=None, where=""):
+    """A local dict that is only ever walked through .items() is the list of its (key, value) pairs:
+        d = {"a": x, "b": y}                          ->  d = [("a", x), ("b", y)]
+        s = {k: v for k, v in d.items() if v ...}     ->  s = [(k, v) for k, v in d if v ...]
+        f(*s.items()) / for k, v in s.items()         ->  s
+    (distinct constant keys; iteration order is insertion order either way)."""
+    par = {}
+    for n in ast.walk(fn):
+        for c in ast.iter_child_nodes(n):
+            par[id(c)] = n
+    done = []
+    changed = True
+    rounds = 0
+    while changed and rounds < 4:
+        changed = False
+        rounds += 1
+        for st in [x for x in ast.walk(fn) if isinstance(x, (ast.Assign, ast.AnnAssign))]:
+            tg = st.targets[0] if isinstance(st, ast.Assign) and len(st.targets) == 1 else getattr(st, "target", None)
+            v = st.value
+            if not isinstance(tg, ast.Name) or v is None:
+                continue
+            name = tg.id
+            lit = isinstance(v, ast.Dict) and v.keys and all(isinstance(k, ast.Constant) for k in v.keys) and len({k.value for k in v.keys}) == len(v.keys)
+            comp = isinstance(v, ast.DictComp) and len(v.generators) == 1 and isinstance(v.generators[0].target, ast.Tuple) and len(v.generators[0].target.elts) == 2 and all(isinstance(t, ast.Name) for t in v.generators[0].target.elts) and isinstance(v.key, ast.Name) and isinstance(v.value, ast.Name) and [v.key.id, v.value.id] == [t.id for t in v.generators[0].target.elts] and isinstance(v.generators[0].iter, ast.Name)
+            if not (lit or comp):
+                continue
+            uses = [n for n in ast.walk(fn) if isinstance(n, ast.Name) and n.id == name and n is not tg]
+            if not uses or any(isinstance(n.ctx, ast.Store) for n in uses):
+                continue
+            ok = True
+            for n in uses:
+                p = par.get(id(n))
+                pp = par.get(id(p)) if p is not None else None
+                if not (isinstance(p, ast.Attribute) and p.attr == "items" and isinstance(pp, ast.Call) and pp.func is p and not pp.args):
+                    ok = False
+            if not ok:
+                continue
+            if lit:
+                st.value = ast.copy_location(ast.List(elts=[ast.Tuple(elts=[k, x], ctx=ast.Load()) for k, x in zip(v.keys, v.values)], ctx=ast.Load()), v)
+            else:
+                g = v.generators[0]
+                st.value = ast.copy_location(ast.ListComp(elt=ast.Tuple(elts=[ast.Name(id=v.key.id, ctx=ast.Load()), ast.Name(id=v.value.id, ctx=ast.Load())], ctx=ast.Load()), generators=[g]), v)
+            if isinstance(st, ast.AnnAssign):
+                st.annotation = ast.Name(id="list", ctx=ast.Load())
+
+            class R(ast.NodeTransformer):
+                def visit_Call(self, c):
+                    self.generic_visit(c)
+                    if isinstance(c.func, ast.Attribute) and c.func.attr == "items" and isinstance(c.func.value, ast.Name) and c.func.value.id == name and not c.args:
+                        return ast.copy_location(ast.Name(id=name, ctx=ast.Load()), c)
+                    return c
+
+            fn.body = [R().visit(b) for b in fn.body]
+            ast.fix_missing_locations(fn)
+            par = {}
+            for n in ast.walk(fn):
+                for c in ast.iter_child_nodes(n):
+                    par[id(c)] = n
+            done.append(name)
+            changed = True
+            break
+    if done and log is not None:
+        log.append(f"dict walked only through .items() -> list of pairs {where}:{fn.name} {done}")
+    return bool(done)
+
+
+def scan_to_extremum(fn, log=None, where=""):
+    """A hand-written scan for the greatest / least element is the library call it spells out:
+        best = xs[0]
+        for x in xs[1:]:                    ->   best = sorted(xs, key=lambda e: e.K)[-1]    (>=: the last of equal keys)
+            if x.K >= best.K: best = x           best = max(xs, key=lambda e: e.K)           (>:  the first of equal keys)
+    (<= / < likewise with [0] / min).  Both raise IndexError / ValueError on an empty list."""
+    done = []
+
+    def keyof(e, var):
+        """e is var.K / var["K"] -> K"""
+        if isinstance(e, ast.Attribute) and isinstance(e.value, ast.Name) and e.value.id == var:
+            return ("attr", e.attr)
+        if isinstance(e, ast.Subscript) and isinstance(e.value, ast.Name) and e.value.id == var and isinstance(e.slice, ast.Constant):
+            return ("item", e.slice.value)
+        return None
+
+    def rec(stmts):
+        out = []
+        i = 0
+        while i < len(stmts):
+            a = stmts[i]
+            b = stmts[i + 1] if i + 1 < len(stmts) else None
+            hit = False
+            if isinstance(a, ast.Assign) and len(a.targets) == 1 and isinstance(a.targets[0], ast.Name) and isinstance(a.value, ast.Subscript) and isinstance(a.value.slice, ast.Constant) and a.value.slice.value == 0 and isinstance(b, ast.For) and not b.orelse and isinstance(b.target, ast.Name) and len(b.body) == 1 and isinstance(b.body[0], ast.If) and not b.body[0].orelse and len(b.body[0].body) == 1:
+                B, S = a.targets[0].id, ast.unparse(a.value.value)
+                it = b.iter
+                over = ast.unparse(it.value) if isinstance(it, ast.Subscript) and isinstance(it.slice, ast.Slice) and it.slice.upper is None and it.slice.step is None and isinstance(it.slice.lower, ast.Constant) and it.slice.lower.value == 1 else ast.unparse(it)
+                x = b.target.id
+                iff = b.body[0]
+                asg = iff.body[0]
+                t = iff.test
+                if over == S and isinstance(asg, ast.Assign) and len(asg.targets) == 1 and isinstance(asg.targets[0], ast.Name) and asg.targets[0].id == B and isinstance(asg.value, ast.Name) and asg.value.id == x and isinstance(t, ast.Compare) and len(t.ops) == 1:
+                    l, r, op = t.left, t.comparators[0], t.ops[0]
+                    kx, kb = keyof(l, x), keyof(r, B)
+                    if kx is None:
+                        kx, kb = keyof(r, x), keyof(l, B)
+                        op = {ast.Lt: ast.Gt, ast.Gt: ast.Lt, ast.LtE: ast.GtE, ast.GtE: ast.LtE}.get(type(op), type(None))()
+                    if kx is not None and kx == kb and isinstance(op, (ast.Gt, ast.GtE, ast.Lt, ast.LtE)):
+                        kexpr = f"e.{kx[1]}" if kx[0] == "attr" else f"e[{kx[1]!r}]"
+                        if isinstance(op, ast.GtE):
+                            txt = f"sorted({S}, key=lambda e: {kexpr})[-1]"
+                        elif isinstance(op, ast.Gt):
+                            txt = f"max({S}, key=lambda e: {kexpr})"
+                        elif isinstance(op, ast.Lt):
+                            txt = f"min({S}, key=lambda e: {kexpr})"
+                        else:
+                            txt = f"sorted({S}, key=lambda e: {kexpr}, reverse=True)[-1]"
+                        new = ast.parse(f"{B} = {txt}").body[0]
+                        ast.copy_location(new, a)
+                        for z in ast.walk(new):
+                            ast.copy_location(z, a)
+                        out.append(new)
+                        done.append(B)
+                        i += 2
+                        hit = True
+            if not hit:
+                for field in ("body", "orelse", "finalbody"):
+                    blk = getattr(a, field, None)
+                    if isinstance(blk, list) and blk and isinstance(blk[0], ast.stmt) and not isinstance(a, (ast.FunctionDef, ast.AsyncFunctionDef, ast.ClassDef)):
+                        setattr(a, field, rec(blk))
+                if isinstance(a, ast.Try):
+                    for h in a.handlers:
+                        h.body = rec(h.body)
+                out.append(a)
+                i += 1
+        return out
+
+    fn.body = rec(fn.body)
+    if done:
+        ast.fix_missing_locations(fn)
+        if log is not None:
+            log.append(f"extremum scan -> sorted()/max()/min() {where}:{fn.name} {done}")
+    return bool(done)
+
+
+def eafp_to_lbyl(fn, log=None, where=""):
+    """try: x = d[k] / return d[k] ... except KeyError: <raise E>     ->     if k not in d: <raise E> ; x = d[k]
+    for a plain mapping d reached through self / a name (the membership test has no effect of its own); the handler does not
+    use the exception object and ends in a raise of its own."""
+    done = []
+
+    def rec(stmts):
+        out = []
+        for st in stmts:
+            for field in ("body", "orelse", "finalbody"):
+                blk = getattr(st, field, None)
+                if isinstance(blk, list) and blk and isinstance(blk[0], ast.stmt) and not isinstance(st, (ast.FunctionDef, ast.AsyncFunctionDef, ast.ClassDef)):
+                    setattr(st, field, rec(blk))
+            if isinstance(st, ast.Try):
+                for h in st.handlers:
+                    h.body = rec(h.body)
+            if isinstance(st, ast.Try) and len(st.body) == 1 and len(st.handlers) == 1 and not st.orelse and not st.finalbody and isinstance(st.body[0], (ast.Assign, ast.Return, ast.AnnAssign)):
+                h = st.handlers[0]
+                hn = ast.unparse(h.type) if h.type is not None else ""
+                last = h.body[-1] if h.body else None
+                subs = [x for x in ast.walk(st.body[0]) if isinstance(x, ast.Subscript) and isinstance(x.ctx, ast.Load) and not isinstance(x.slice, ast.Slice)]
+                calls = [x for x in ast.walk(st.body[0]) if isinstance(x, ast.Call)]
+                if hn == "KeyError" and h.name is None and isinstance(last, ast.Raise) and last.exc is not None and len(subs) == 1 and not calls and isinstance(subs[0].value, (ast.Name, ast.Attribute)) and isinstance(subs[0].slice, (ast.Name, ast.Constant, ast.Attribute)):
+                    test = ast.Compare(left=subs[0].slice, ops=[ast.NotIn()], comparators=[subs[0].value])
+                    last.cause = None
+                    guard = ast.If(test=test, body=h.body, orelse=[])
+                    ast.copy_location(guard, st)
+                    ast.copy_location(test, st)
+                    out += [guard, st.body[0]]
+                    done.append(ast.unparse(subs[0]))
+                    continue
+            out.append(st)
+        return out
+
+    fn.body = rec(fn.body)
+    if done:
+        ast.fix_missing_locations(fn)
+        if log is not None:
+            log.append(f"try/except KeyError -> membership test {where}:{fn.name} {done}")
+    return bool(done)
+
+
+def first_match_to_loop(fn, log=None, where=""):
+    """g = (E for x in xs if C) ; f = next(g, D)      ->      f = D ; for x in xs: if C: f = E ; break
+    (g is used nowhere else; also next((E for x in xs if C), D) written in one piece)."""
+    done = []
+    uses = {}
+    for n in ast.walk(fn):
+        if isinstance(n, ast.Name):
+            uses.setdefault(n.id, []).append(n)
+
+    def gen_of(e, stmts, k):
+        """the generator expression next() is applied to, and the statement that bound it (to be dropped)"""
+        if isinstance(e, ast.GeneratorExp):
+            return e, None
+        if isinstance(e, ast.Name) and len(uses.get(e.id, [])) == 2:
+            for prev in stmts[:k]:
+                if isinstance(prev, ast.Assign) and len(prev.targets) == 1 and isinstance(prev.targets[0], ast.Name) and prev.targets[0].id == e.id and isinstance(prev.value, ast.GeneratorExp):
+                    return prev.value, prev
+        return None, None
+
+    def rec(stmts):
+        stmts = list(stmts)
+        k = 0
+        while k < len(stmts):
+            st = stmts[k]
+            for field in ("body", "orelse", "finalbody"):
+                blk = getattr(st, field, None)
+                if isinstance(blk, list) and blk and isinstance(blk[0], ast.stmt) and not isinstance(st, (ast.FunctionDef, ast.AsyncFunctionDef, ast.ClassDef)):
+                    setattr(st, field, rec(blk))
+            if isinstance(st, ast.Try):
+                for h in st.handlers:
+                    h.body = rec(h.body)
+            if isinstance(st, ast.Assign) and len(st.targets) == 1 and isinstance(st.targets[0], ast.Name) and isinstance(st.value, ast.Call) and isinstance(st.value.func, ast.Name) and st.value.func.id == "next" and len(st.value.args) == 2 and not st.value.keywords:
+                g, binder = gen_of(st.value.args[0], stmts, k)
+                if g is not None and len(g.generators) == 1 and not g.generators[0].is_async:
+                    gen = g.generators[0]
+                    F = st.targets[0].id
+                    init = ast.Assign(targets=[ast.Name(id=F, ctx=ast.Store())], value=st.value.args[1])
+                    hitb = [ast.Assign(targets=[ast.Name(id=F, ctx=ast.Store())], value=g.elt), ast.Break()]
+                    body = hitb
+                    if gen.ifs:
+                        cond = gen.ifs[0] if len(gen.ifs) == 1 else ast.BoolOp(op=ast.And(), values=list(gen.ifs))
+                        body = [ast.If(test=cond, body=hitb, orelse=[])]
+                    loop = ast.For(target=gen.target, iter=gen.iter, body=body, orelse=[], type_comment=None)
+                    for x in (init, loop):
+                        ast.copy_location(x, st)
+                        for z in ast.walk(x):
+                            if not hasattr(z, "lineno"):
+                                ast.copy_location(z, st)
+                    for z in ast.walk(gen.target):
+                        if isinstance(z, ast.Name):
+                            z.ctx = ast.Store()
+                    new = [init, loop]
+                    if binder is not None:
+                        stmts.remove(binder)
+                        k -= 1
+                    stmts[k : k + 1] = new
+                    done.append(F)
+                    k += 2
+                    continue
+            k += 1
+        return stmts
+
+    fn.body = rec(fn.body)
+    if done:
+        ast.fix_missing_locations(fn)
+        if log is not None:
+            log.append(f"next(generator, default) -> first-match loop {where}:{fn.name} {done}")
+    return bool(done)
+
+
+def last_alias_to_index(fn, log=None, where=""):
+    """A local that always holds the element appended last to a list IS that list's last element:
+        last = None ... last = E ; acc.append(last)     (every binding of `last`, every append to `acc`)
+        last is not None  ->  len(acc) > 0        last is None  ->  len(acc) == 0        last.x  ->  acc[-1].x"""
+    par = {}
+    for n in ast.walk(fn):
+        for c in ast.iter_child_nodes(n):
+            par[id(c)] = n
+    done = []
+    inits = [st for st in fn.body if isinstance(st, (ast.Assign, ast.AnnAssign)) and isinstance(getattr(st, "value", None), ast.Constant) and st.value.value is None and isinstance(st.targets[0] if isinstance(st, ast.Assign) and len(st.targets) == 1 else getattr(st, "target", None), ast.Name)]
+    for init in inits:
+        L = (init.targets[0] if isinstance(init, ast.Assign) else init.target).id
+        stores = [n for n in ast.walk(fn) if isinstance(n, ast.Name) and n.id == L and isinstance(n.ctx, ast.Store) and par.get(id(n)) is not init]
+        if not stores:
+            continue
+        acc = None
+        pairs = []
+        ok = True
+        for sn in stores:
+            asg = par.get(id(sn))
+            blk_owner = par.get(id(asg))
+            if not (isinstance(asg, ast.Assign) and len(asg.targets) == 1 and asg.targets[0] is sn):
+                ok = False
+                break
+            nxt = None
+            for field in ("body", "orelse", "finalbody"):
+                blk = getattr(blk_owner, field, None)
+                if isinstance(blk, list) and any(b is asg for b in blk):
+                    i_ = [k for k, b in enumerate(blk) if b is asg][0]
+                    nxt = blk[i_ + 1] if i_ + 1 < len(blk) else None
+            if not (isinstance(nxt, ast.Expr) and isinstance(nxt.value, ast.Call) and isinstance(nxt.value.func, ast.Attribute) and nxt.value.func.attr == "append" and isinstance(nxt.value.func.value, ast.Name) and len(nxt.value.args) == 1 and isinstance(nxt.value.args[0], ast.Name) and nxt.value.args[0].id == L):
+                ok = False
+                break
+            a_ = nxt.value.func.value.id
+            if acc not in (None, a_):
+                ok = False
+                break
+            acc = a_
+            pairs.append((asg, nxt))
+        if not ok or acc is None:
+            continue
+        # the list starts empty, is only appended to, and only with `last`
+        acc_defs = [st for st in fn.body if isinstance(st, (ast.Assign, ast.AnnAssign)) and isinstance(st.targets[0] if isinstance(st, ast.Assign) and len(st.targets) == 1 else getattr(st, "target", None), ast.Name) and (st.targets[0] if isinstance(st, ast.Assign) else st.target).id == acc]
+        if len(acc_defs) != 1 or not (isinstance(acc_defs[0].value, ast.List) and not acc_defs[0].value.elts):
+            continue
+        bad = False
+        for n in ast.walk(fn):
+            if isinstance(n, ast.Name) and n.id == acc:
+                p = par.get(id(n))
+                if isinstance(n.ctx, ast.Store) and par.get(id(n)) is not acc_defs[0]:
+                    bad = True
+                if isinstance(p, ast.Attribute) and p.attr in ("append", "extend", "insert", "pop", "remove", "clear", "sort", "reverse") and not any(p is pr[1].value.func for pr in pairs):
+                    bad = True
+                if isinstance(p, ast.Subscript) and isinstance(p.ctx, (ast.Store, ast.Del)):
+                    bad = True
+        if bad:
+            continue
+        protected = {id(x) for asg, app in pairs for x in list(ast.walk(asg.targets[0])) + list(ast.walk(app))}
+
+        def acc_last():
+            return ast.Subscript(value=ast.Name(id=acc, ctx=ast.Load()), slice=ast.UnaryOp(op=ast.USub(), operand=ast.Constant(value=1)), ctx=ast.Load())
+
+        def acc_len(op, k):
+            return ast.Compare(left=ast.Call(func=ast.Name(id="len", ctx=ast.Load()), args=[ast.Name(id=acc, ctx=ast.Load())], keywords=[]), ops=[op], comparators=[ast.Constant(value=k)])
+
+        class R(ast.NodeTransformer):
+            def visit_Compare(self, n):
+                if len(n.ops) == 1 and isinstance(n.left, ast.Name) and n.left.id == L and isinstance(n.comparators[0], ast.Constant) and n.comparators[0].value is None and isinstance(n.ops[0], (ast.Is, ast.IsNot)):
+                    return ast.copy_location(acc_len(ast.Gt() if isinstance(n.ops[0], ast.IsNot) else ast.Eq(), 0), n)
+                return self.generic_visit(n)
+
+            def visit_Name(self, n):
+                if n.id == L and isinstance(n.ctx, ast.Load) and id(n) not in protected:
+                    return ast.copy_location(acc_last(), n)
+                return n
+
+        fn.body = [R().visit(st) for st in fn.body if st is not init]
+        done.append(f"{L}->{acc}[-1]")
+        ast.fix_missing_locations(fn)
+        break
+    if done and log is not None:
+        log.append(f"last-appended alias -> list[-1] {where}:{fn.name} {done}")
+    return bool(done)
+
+
+def work_then_continue_to_else(fn, log=None, where=""):
+    """for ...: if C: WORK ; continue ; REST      ->      for ...: if C: WORK else: REST
+    (only when the branch does something besides `continue`: a bare guard stays a guard)."""
+    done = []
+    for lp in [n for n in ast.walk(fn) if isinstance(n, (ast.For, ast.While))]:
+        body = lp.body
+        for k, st in enumerate(body):
+            # (a branch that only logs before `continue` is still a bare guard)
+            only_logs = all(isinstance(b, ast.Expr) and isinstance(b.value, ast.Call) and _is_log_call(b.value) for b in st.body[:-1]) if isinstance(st, ast.If) else False
+            if isinstance(st, ast.If) and not only_logs and not st.orelse and len(st.body) >= 2 and isinstance(st.body[-1], ast.Continue) and k + 1 < len(body) and not any(isinstance(x, ast.Continue) for b in st.body[:-1] for x in ast.walk(b)):
+                rest = body[k + 1 :]
+                st.body = st.body[:-1]
+                st.orelse = rest
+                lp.body = body[: k + 1]
+                done.append(st.lineno)
+                break
+    if done:
+        ast.fix_missing_locations(fn)
+        if log is not None:
+            log.append(f"work-then-continue -> if/else {where}:{fn.name} lines {done}")
+    return bool(done)
+
+
+def truth_alias(fn, log=None, where=""):
+    """f = bool(x) (bound once; x a name that is not re-bound) and f only ever tested for truth  ->  the tests read x"""
+    par = {}
+    for n in ast.walk(fn):
+        for c in ast.iter_child_nodes(n):
+            par[id(c)] = n
+    done = []
+    for st in [x for x in ast.walk(fn) if isinstance(x, ast.Assign)]:
+        if not (len(st.targets) == 1 and isinstance(st.targets[0], ast.Name) and isinstance(st.value, ast.Call) and isinstance(st.value.func, ast.Name) and st.value.func.id == "bool" and len(st.value.args) == 1 and isinstance(st.value.args[0], ast.Name) and not st.value.keywords):
+            continue
+        F, X = st.targets[0].id, st.value.args[0].id
+        f_nodes = [n for n in ast.walk(fn) if isinstance(n, ast.Name) and n.id == F]
+        x_stores = [n for n in ast.walk(fn) if isinstance(n, ast.Name) and n.id == X and isinstance(n.ctx, ast.Store)]
+        if len([n for n in f_nodes if isinstance(n.ctx, ast.Store)]) != 1 or len(x_stores) > 1:
+            continue
+        ok = True
+        for n in f_nodes:
+            if isinstance(n.ctx, ast.Store):
+                continue
+            p = par.get(id(n))
+            in_test = (isinstance(p, (ast.If, ast.While, ast.IfExp)) and p.test is n) or (isinstance(p, ast.UnaryOp) and isinstance(p.op, ast.Not)) or isinstance(p, ast.BoolOp)
+            if isinstance(p, ast.BoolOp):
+                # the value of `a and f` may be f itself: only when the BoolOp is itself a test
+                pp = par.get(id(p))
+                in_test = (isinstance(pp, (ast.If, ast.While, ast.IfExp)) and pp.test is p) or (isinstance(pp, ast.UnaryOp) and isinstance(pp.op, ast.Not))
+            if not in_test:
+                ok = False
+        if not ok:
+            continue
+        for n in f_nodes:
+            if isinstance(n.ctx, ast.Load):
+                n.id = X
+        holder = par.get(id(st))
+        for field in ("body", "orelse", "finalbody"):
+            blk = getattr(holder, field, None)
+            if isinstance(blk, list) and any(b is st for b in blk):
+                blk.remove(st)
+                if not blk and field == "body":
+                    blk.append(ast.copy_location(ast.Pass(), st))
+        done.append(f"{F}->{X}")
+    if done and log is not None:
+        log.append(f"truth alias removed {where}:{fn.name} {done}")
+    return bool(done)
+
+
 def known_modules():
     return set(_lines("known_modules.txt"))
 
@@ -3455,6 +3892,19 @@ def peewee_shortcuts(modules, log):
 _KNOWN_FUNCS: set = set()
 
 
+def post_inline(modules):
+    log = []
+    for mi in modules.values():
+        mi.tree = _Misc(log, mi.name).visit(mi.tree)
+        ast.fix_missing_locations(mi.tree)
+        for n in ast.walk(mi.tree):
+            if isinstance(n, (ast.FunctionDef, ast.AsyncFunctionDef)):
+                dict_items_to_pairs(n, log, mi.name)
+                filter_loop_to_comprehension(n, log, mi.name)
+                truth_alias(n, log, mi.name)
+    return [f"(after expansion) {l}" for l in log]
+
+
 def run(modules, known_funcs):
     """normalise all module trees in place; returns the list of rewrites performed"""
     log = []
@@ -3494,4 +3944,11 @@ def run(modules, known_funcs):
                 flag_to_condition(n, log, mi.name)
                 filter_loop_to_comprehension(n, log, mi.name)
                 enumerate_start_to_counter(n, log, mi.name)
+                dict_items_to_pairs(n, log, mi.name)
+                scan_to_extremum(n, log, mi.name)
+                first_match_to_loop(n, log, mi.name)
+                last_alias_to_index(n, log, mi.name)
+                work_then_continue_to_else(n, log, mi.name)
+                truth_alias(n, log, mi.name)
+                eafp_to_lbyl(n, log, mi.name)
     return log
